@@ -361,6 +361,7 @@ def rule_decoder_state(ck, R, rule='C06.f'):
 
 def run(ck):
     ck.rule('C06.h', 'the numeric response, type, option and meta codes behind the enumerators are those of the protocol document (C08.a re-evaluated): the error response prescribed for a verdict carries the prescribed code')
+    ck.rule('C06.i', 'the transfer calls under the protocol (sink_put_chunk, source_get_chunk, their adaptors, sts_n) keep their position and retry discipline (C17.a-d, C17.f re-evaluated): a response reaches the sink octet for octet also when the driver interrupts')
     ck.rule('C06.g', 'the receive sink (continuable sink) stores min(n, free space), reports an overflow exactly when octets were dropped, and always consumes what it is given (C09.a re-evaluated)')
     ck.rule('C06.f', 'the SLIP decoder context of regp_recv belongs to the instance (its skip-to-end state after a damaged frame survives the call) and is initialised by regp_init / regp_use_channel')
     ck.rule('C06.a', 'on every path of regp_process: <= 1 backend access, <= 1 reply; a backend access is dominated by frame != NULL, error.id == 0, request type, matching word size and followed by exactly one reply; responses/meta/failed frames cause neither; nothing is stored in the instance')
@@ -410,3 +411,6 @@ def run(ck):
                'the receive sink stores exactly what arrived: a request is executed with the payload that was received')
     reevaluate(ck, 'C06.h', 'c08', lambda r, k: r == 'C08.a',
                'the response code on the wire is the enumerator\'s value')
+    reevaluate(ck, 'C06.i', 'c17', lambda r, k: (r in ('C17.a', 'C17.b', 'C17.c', 'C17.d') and k.startswith(('sink_put_chunk', 'source_get_chunk', 'sink_adapt', 'source_adapt'))) or
+               (r == 'C17.f' and k.startswith(('sts_n', 'sts_atmost'))),
+               'requests arrive and responses leave through the exact transfer calls: every octet of a response is offered to the sink until it is taken, a retry signal drops or repeats none')
